@@ -18,8 +18,12 @@ ANY = "<any>"  # coordinate value that nothing documents (dimension kept by keep
 
 # ---- payload functions (module level: picklable, stable names) -------------------------------------------
 
-def src_array(seed: int, inner_shape: tuple, lo: int = 1, hi: int = 5, as_float: bool = False):
+def src_array(seed: int, inner_shape: tuple, lo: int = 1, hi: int = 5, as_float: bool = False, dtype: str | None = None):
     rng = np.random.default_rng(seed)
+    if dtype == "bool":
+        return rng.integers(0, 2, size=inner_shape).astype("bool")
+    if dtype in ("int8", "uint8", "int16"):
+        return rng.integers(50, 120, size=inner_shape).astype(dtype)      # a few of these overflow the narrow type when added or multiplied
     if as_float:
         return rng.random(size=inner_shape) * 4 + 0.5
     return rng.integers(lo, hi, size=inner_shape).astype("float64")
@@ -63,7 +67,7 @@ def shadow_source(src) -> Shadow:
     shape = tuple(len(src["coords"][d]) for d in src["dims"])
     arr = np.empty(shape + tuple(src["inner"]), dtype="float64")
     for idx in np.ndindex(*shape):
-        arr[idx] = src_array(src["seed"] + int(np.ravel_multi_index(idx, shape)) if shape else src["seed"], tuple(src["inner"]), as_float=src.get("floats", False))
+        arr[idx] = src_array(src["seed"] + int(np.ravel_multi_index(idx, shape)) if shape else src["seed"], tuple(src["inner"]), as_float=src.get("floats", False), dtype=src.get("dtype"))
     return Shadow(arr, src["dims"], src["coords"])
 
 
@@ -158,7 +162,7 @@ def fluent_source(src):
     payloads = np.empty(shape, dtype=object)
     for idx in np.ndindex(*shape):
         seed = src["seed"] + int(np.ravel_multi_index(idx, shape)) if shape else src["seed"]
-        payloads[idx] = fluent.Payload(src_array, [seed, tuple(src["inner"])], {"as_float": src.get("floats", False)})
+        payloads[idx] = fluent.Payload(src_array, [seed, tuple(src["inner"])], {"as_float": src.get("floats", False), "dtype": src.get("dtype")})
     return fluent.from_source(payloads, dims=list(src["dims"]), coords={d: list(v) for d, v in src["coords"].items()})
 
 
